@@ -46,6 +46,17 @@ Theorem vault_fails_without_authentic : forall key rp pk,
   (exists e, get_vault key rp pk = inr e) /\ (exists e, fetch_and_decrypt_vault key rp pk = VErr e).
 Proof. intros key rp pk N. split; [exact (vault_fails_lemma key rp pk N)|exact (fetch_fails_lemma key rp pk N)]. Qed.
 
+(* a record carried inside an error reply (NotEnoughCopies { record, .. }, RecordDoesNotMatch(record))
+   is never handed to the caller, whatever it contains *)
+Theorem error_carried_record_never_returned : forall key r pk,
+  get_vault key (RErr (GNotEnoughCopies r)) pk = inr (VNet (GNotEnoughCopies r)) /\
+  get_vault key (RErr (GDoesNotMatch r)) pk = inr (VNet (GDoesNotMatch r)) /\
+  fetch_and_decrypt_vault key (RErr (GNotEnoughCopies r)) pk = VErr (VNet (GNotEnoughCopies r)) /\
+  fetch_and_decrypt_vault key (RErr (GDoesNotMatch r)) pk = VErr (VNet (GDoesNotMatch r)) /\
+  forall H a, chunk_get H (RErr (GNotEnoughCopies r)) a = inr (CNet (GNotEnoughCopies r)) /\
+              chunk_get H (RErr (GDoesNotMatch r)) a = inr (CNet (GDoesNotMatch r)).
+Proof. exact error_carried_record_ignored. Qed.
+
 (* honest holders are still served: one authentic version ... *)
 Theorem vault_honest_accepted : forall key k pk p,
   authentic pk p = true -> get_vault key (ROk (pad_record k p)) pk = inl p.
